@@ -72,9 +72,19 @@ NOISE = [b"\xff\xfe", b"\x80", b"1;0;1;0;2;\xc3", b"\xf0\x9f", b"1;1;1;0;0;20.\x
 def gen_bytes(rng, i, kind):
     proto = rng.choice(G.PROTOS)
     lines = []
+    if rng.random() < 0.6:
+        lines += [[f"1;255;0;0;17;{proto}".encode().hex(), "good"], [b"1;0;0;0;3;c".hex(), "good"],
+                  [b"1;1;0;0;3;c".hex(), "good"]]
     for _ in range(rng.randint(2, 12)):
         r = rng.random()
         base = good_line(rng, proto, [1, 2, 9], [0, 1, 7])
+        if rng.random() < 0.12:
+            # a value with raw bytes is set, later the node asks for it back (the reply has to be encoded again)
+            t = rng.choice([2, 47, 48])
+            lines.append([(f"1;{rng.choice([0, 1])};1;0;{t};".encode() + rng.choice([b"\xff\xfe\x01", b"20.\xb0C", b"\xc3"])).hex(), "noise"])
+            lines.append([f"1;0;2;0;{t};".encode().hex(), "good"])
+            lines.append([f"1;1;2;0;{t};".encode().hex(), "good"])
+            continue
         if r < 0.35:
             lines.append([base.rstrip("\n").encode().hex(), "good"])
         elif r < 0.65:
